@@ -90,10 +90,34 @@ def _validator_cases():
                     yield {'spec': tree, 'inputs': inputs}
 
 
+def _created_cases():
+    """Namespaces declared with a nested name through PortNamespace.create_port_namespace(): the options belong to the
+    terminal namespace, the parents that did not exist take the constructor defaults."""
+    values = ['<absent>', {}, {'x': 1}, {'x': 's'}, {'x': -1}, {'a': 1}, {'a': 1, 'x': 2}, {'q': 1}, {'q': 1, 'a': 0}, 1]
+    for nshape in NS_SHAPES:
+        for depth in (2, 3):
+            inner = pm.ns({'q': pm.port(required=False, valid_type='int', default=['plain', 5])}, **nshape)
+            inner['via'] = 'create'
+            tree = inner
+            for name in ('lim', 'mid')[: depth - 1]:
+                tree = pm.ns({name: tree})
+                tree['implicit'] = True
+            top = pm.ns({'s': tree, 'p': pm.port(required=False)})
+            for value in values:
+                inputs = {}
+                if value != '<absent>':
+                    nested = value
+                    for name in ('lim', 'mid')[: depth - 1]:
+                        nested = {name: nested}
+                    inputs['s'] = nested
+                yield {'spec': top, 'inputs': inputs}
+
+
 def enumerate_cases(tier, scope):
     if scope == 'dynamic':
         yield from _dynamic_cases()
         yield from _validator_cases()
+        yield from _created_cases()
         return
     pshapes = PORT_SHAPES if scope == 'two-level-wide' else PORT_SHAPES[::3]
     qshapes = PORT_SHAPES[::2] if scope == 'two-level-wide' else PORT_SHAPES[1::5]
